@@ -8,7 +8,7 @@ HERE = os.path.dirname(os.path.abspath(__file__))
 os.chdir(HERE)
 N = int(sys.argv[1]) if len(sys.argv) > 1 else 4000
 SEED = sys.argv[2] if len(sys.argv) > 2 else '424242'
-BINS = ['apptoken', 'abi', 'abi.wide', 'mem', 'mem.p64', 'mem.pvoid', 'callback', 'callback.tls', 'invoke', 'toctou', 'toctou.asan', 'bulk', 'bulk.asan', 'bulk.nogrant',
+BINS = ['apptoken', 'abi', 'abi.wide', 'mem', 'mem.p64', 'mem.pvoid', 'callback', 'callback.tls', 'invoke', 'toctou', 'toctou.asan', 'bulk', 'bulk.asan', 'bulk.nogrant', 'bulk.wide',
         'transition.hooks', 'transition.timing', 'transition.both', 'transition.inonly', 'transition.outonly', 'transition.wide', 'threads', 'threads.tls', 'threads.tsan']
 subprocess.run(['make', '-s', '-j16', 'all'], check=True)
 bad = 0
